@@ -130,8 +130,13 @@ Record result := mkRes {
   r_gas : N;                (* notify.GasConsumed *)
   r_fee_events : list N;    (* amounts of the payer -> governance transfer events appended by the charge *)
   r_events : N;             (* len(notify.Notify) *)
-  r_req : option N          (* specification only: the amount handed to the charge's ONG transfer, if one was attempted *)
+  r_req : option N          (* specification only: the amount handed to the charge's ONG transfer, if one was attempted
+                               (for StNoProbe: the gas the engine was to be run with) *)
 }.
+
+(** * common.SafeMul: (x * y wrapped, overflowed?) *)
+Definition safe_mul (x y : N) : N * bool :=
+  if safemul_zero x y then (safemul_zero_val, safemul_zero_ovf) else (safemul_val x y, safemul_ovf x y).
 
 (** * tuneGasFeeByHeight (total since /repo 96f31c72: a zero rounding unit returns the balance) *)
 Definition tune_fee (height tuneHeight gas round cur : N) : N :=
@@ -176,7 +181,7 @@ Definition tuned_cost_invalid (env : envp) (tx : txp) (s : state) (gas round cap
 (** * HandleInvokeTransaction from `sc := smartcontract.SmartContract{...}` on *)
 Definition exec_part (env : envp) (tx : txp) (ip : interp) (s : state) (is_charge : bool) (avail clg old : N) : result :=
   match ip s (fee_exec_gas avail clg) with
-  | None => mkRes s StNoProbe 0 [] 0 None
+  | None => mkRes s StNoProbe 0 [] 0 (Some (fee_exec_gas avail clg))   (* [r_req] here: the gas handed to the engine *)
   | Some o =>
       let s1 := mkState (o_cache o) (st_overlay s) (st_store s) in
       if o_internal o then mkRes s1 StBlockError 0 [] 0 None            (* overlay.SetError *)
@@ -215,11 +220,12 @@ Definition handle_invoke (env : envp) (tx : txp) (ip : interp) (s : state) : res
         match get_balance s (t_payer tx) with
         | None => fail_nocharge s
         | Some old =>
-            let minGas := fee_min_gas (t_price tx) in
-            if fee_lt_min old minGas then cost_invalid tx s (fee_charge_nobal_min old)
+            let '(minGas, ovf1) := safe_mul (fee_min_a (t_price tx)) (fee_min_b (t_price tx)) in
+            if fee_lt_min ovf1 old minGas then cost_invalid tx s (fee_charge_nobal_min old)   (* overflow || oldBalance < minGas *)
             else
               let clg := code_len_gas (t_codelen tx) codegas in
-              if fee_lt_code old clg (t_price tx) then cost_invalid tx s (fee_charge_nobal_code old)
+              let '(codeLenGas, ovf2) := safe_mul (fee_code_a clg (t_price tx)) (fee_code_b clg (t_price tx)) in
+              if fee_lt_code ovf2 old codeLenGas then cost_invalid tx s (fee_charge_nobal_code old)
               else if fee_lt_limit (t_limit tx) clg then cost_invalid tx s (fee_charge_limit (t_limit tx) (t_price tx))
               else
                 let maxAva := fee_max_ava old (t_price tx) in
